@@ -152,6 +152,31 @@ Definition over_limit (s : str) : bool := MAX_STR_DIGITS <? digit_count s.
 Definition str_of_int (z : Z) : outcome str :=
   let s := show_Z z in if over_limit s then Raise ValueErrorC else Ok s.
 
+(* formatting a value - f'{value}', str(value), repr inside a container - fails exactly when an int of more than
+   4300 digits occurs in it (str of a list is the repr of its items); everything else always prints *)
+Definition int_fmt_ok (z : Z) : bool := match str_of_int z with Ok _ => true | Raise _ => false end.
+Fixpoint fmt_ok (v : value) : bool :=
+  let fix all (l : list value) : bool :=
+    match l with [] => true | x :: l' => fmt_ok x && all l' end in
+  match v with
+  | VInt z => int_fmt_ok z
+  | VBytes s => forallb int_fmt_ok s
+  | VList l | VTuple l => all l
+  | VDict ks vs => all ks && all vs
+  | _ => true
+  end.
+
+(* what the message of a rejection formats (the f-string is evaluated before the exception is raised) *)
+Inductive fmtarg : Type :=
+| FValue      (* the local `value` *)
+| FBound      (* self._value of Min / Max *)
+| FOther.     (* a length, a type, a pattern text, a class: always prints *)
+
+(* self.raise_exception(msg=f'...', value=value): ValueError from the f-string wins over the ValidatorException *)
+Definition reject {A} (VE : exn) (fmt : list fmtarg) (v bound : value) : outcome A :=
+  if forallb (fun a => match a with FValue => fmt_ok v | FBound => fmt_ok bound | FOther => true end) fmt
+  then Raise VE else Raise ValueErrorC.
+
 (* ---------- numbers: exact comparison ---------------------------------------------------------- *)
 Inductive xnum : Type := XNan | XInf (neg : bool) | XFin (m e : Z).      (* m * 2^e *)
 
@@ -304,13 +329,14 @@ Record oracles : Type := {
 Section WithOracles.
   Variable O : oracles.
 
-  (* str(v): raises ValueError only for an int beyond the digit limit *)
+  (* str(v): raises ValueError only when an int beyond the digit limit occurs in v *)
   Definition py_str (v : value) : outcome str :=
+    if negb (fmt_ok v) then Raise ValueErrorC else
     match v with
     | VNone => Ok [78; 111; 110; 101]
     | VBool true => Ok [84; 114; 117; 101]
     | VBool false => Ok [70; 97; 108; 115; 101]
-    | VInt z => str_of_int z
+    | VInt z => Ok (show_Z z)
     | VStr s => Ok s
     | _ => Ok (o_str O v)
     end.
@@ -349,9 +375,10 @@ Inductive haction : Type :=
 | HReraise.                (* raise ex / bare raise *)
 Definition htable := list (list exn * haction).
 
-Definition handle {A} (vexc : exn) (t : htable) (e : exn) : outcome A :=
+(* rv: what `self.raise_exception(msg=f'...')` in a handler amounts to (see `reject`) *)
+Definition handle {A} (rv : outcome A) (t : htable) (e : exn) : outcome A :=
   match find (fun row => existsb (derives e) (fst row)) t with
-  | Some (_, HRaiseValidator) => Raise vexc
+  | Some (_, HRaiseValidator) => rv
   | Some (_, HRaise c) => Raise c
   | Some (_, HReraise) => Raise e
   | None => Raise e
@@ -380,7 +407,8 @@ Record btest : Type := {
   bt_op : cmpop;
   bt_neg : bool;           (* the comparison is negated: `not value >= self._value` *)
   bt_pol : bool;           (* the branch is taken when include_boundary has this value *)
-  bt_flag_first : bool     (* the flag is the first operand of `and`: the comparison is only evaluated when it holds *)
+  bt_flag_first : bool;    (* the flag is the first operand of `and`: the comparison is only evaluated when it holds *)
+  bt_fmt : list fmtarg     (* what the message of this branch formats *)
 }.
 
 Inductive ne_ret_kind : Type := NERetStripIfFlag | NERetStripAlways | NERetValue.
@@ -389,7 +417,10 @@ Record notempty_shape : Type := {
   ne_return : ne_ret_kind;         (* value.strip() if self.strip else value *)
   ne_seq_dom : domkind;           (* isinstance(value, collections.abc.Sequence) *)
   ne_seq_op : cmpop;              (* len(value) <op> <lit> rejects *)
-  ne_seq_lit : Z
+  ne_seq_lit : Z;
+  ne_fmt_str : list fmtarg;       (* what the three rejection messages format *)
+  ne_fmt_seq : list fmtarg;
+  ne_fmt_else : list fmtarg
 }.
 Record composite_shape : Type := {
   co_threads : bool;              (* value = validator.validate(value) instead of discarding *)
@@ -398,6 +429,7 @@ Record composite_shape : Type := {
 Record foreach_shape : Type := {
   fe_dom : domkind;
   fe_threads : bool;              (* item = validator.validate(item) *)
-  fe_return_in_loop : bool        (* `return results` inside the item loop *)
+  fe_return_in_loop : bool;       (* `return results` inside the item loop *)
+  fe_dom_fmt : list fmtarg
 }.
 Inductive normop : Type := NStr | NStrip | NLower | NUpper.
